@@ -204,7 +204,7 @@ def term_of(v):
 
 
 def fresh_like(v, name="h"):
-    n = fresh(name + "?", B) if (v.none is not None and not isinstance(v, NoneV)) else None
+    n = fresh(name + "_isnone", B) if (v.none is not None and not isinstance(v, NoneV)) else None
     if isinstance(v, Num):
         return Num(fresh(name, R if v.real else I), none=n, real=v.real, inf=(fresh(name + "@inf", B) if v.inf is not None else None))
     if isinstance(v, BoolV):
@@ -251,3 +251,10 @@ def join_shape(a, b):
     if (a.none is not None or b.none is not None) and c.none is None and not isinstance(c, (TupleV, ConstList, StrV)):
         c.none = fresh("n", B)
     return c
+
+
+class CondDes(Val):
+    """conditional modifies-designator: `when(cond, designator)`"""
+
+    def __init__(self, cond, val):
+        self.cond, self.val = cond, val
